@@ -36,6 +36,7 @@ LEVEL_PARAMS = {
     "start_level": "offset of the level (b and b_min carry -start_level)",
     "eff_in": "coefficient of charged volume (A * eff_in on the charge columns)",
     "inflow": "cumulative inflow is part of the level (b and b_min carry -cumsum(inflow*dt))",
+    "block_size": "with time blocks the level restarts at the start level in every block (one lower-triangular band per block)",
 }
 
 
